@@ -7,19 +7,23 @@ import (
 	"flag"
 	"fmt"
 	"os"
+	"time"
 
 	"verif/internal/cards"
 	"verif/internal/explore"
+	"verif/internal/hand"
 )
 
 type checkFn func(rep *explore.Report, tier string)
 
 var checks = map[string]checkFn{
 	"C03": func(rep *explore.Report, tier string) { cards.RunC03(rep) },
+	"C01": hand.RunC01,
 }
 
 var replayers = map[string]func(v *explore.Violation) (bool, string){
 	"cards-c03": cards.ReplayC03,
+	"hand":      hand.ReplayViolation,
 }
 
 func main() {
@@ -28,6 +32,24 @@ func main() {
 	if len(args) < 1 {
 		fmt.Fprintln(os.Stderr, "usage: vcheck <ID> [quick|thorough] | vcheck replay <file>")
 		os.Exit(2)
+	}
+	if args[0] == "probe" {
+		// vcheck probe '<config json>' : explore one configuration with the C01 oracle and print sizes
+		var c hand.Config
+		if err := json.Unmarshal([]byte(args[1]), &c); err != nil {
+			fmt.Fprintln(os.Stderr, err)
+			os.Exit(2)
+		}
+		rep := explore.NewReport("C01", "probe")
+		rep.Root = os.TempDir()
+		r := &hand.Run{Cfg: &c, Rep: rep, Vis: hand.Visitors["C01"](), Property: "C01", Mode: "clone", Workers: 16, MaxState: 5000000}
+		if len(args) > 2 {
+			r.Mode = args[2]
+		}
+		t0 := time.Now()
+		r.Explore()
+		fmt.Printf("%s: states=%d transitions=%d depth=%d viol=%d %.1fs\n", c.Short(), rep.Get("states"), rep.Get("transitions"), rep.Get("max_depth"), rep.ViolationCount(), time.Since(t0).Seconds())
+		os.Exit(0)
 	}
 	if args[0] == "replay" {
 		if len(args) < 2 {
